@@ -86,7 +86,7 @@ Qed.
 Lemma ast_to_ir_emittable : forall T rho e vr i vr',
   ast_to_ir T rho e vr = Some (i, vr') -> emittable T i = true.
 Proof.
-  intros T rho e. induction e as [z | f r | s | op a IHa b IHb | op a IHa | op adv a IHa |]; intros vr i vr' H; cbn in H.
+  intros T rho e. induction e as [z | f r | s | op a IHa b IHb | op a IHa | op adv a IHa | op c IHc |]; intros vr i vr' H; cbn in H.
   - injection H as <- _. reflexivity.
   - injection H as <- _. reflexivity.
   - destruct (rho s) as [v |]; [| discriminate]. destruct (admit_compile T v); [| discriminate].
@@ -105,6 +105,9 @@ Proof.
     destruct (String.eqb adv "/").
     + injection H as <- _. cbn. rewrite M, (IHa _ _ _ A). reflexivity.
     + destruct (String.eqb adv "\"); [| discriminate]. injection H as <- _. cbn. rewrite M, (IHa _ _ _ A). reflexivity.
+  - destruct (String.eqb op "-" && negb (unwrap_exact T)); [| discriminate].
+    destruct (ast_to_ir T rho c vr) as [[ci vr1] |] eqn:A; [| discriminate].
+    injection H as <- _. cbn. exact (IHc _ _ _ A).
   - discriminate.
 Qed.
 
